@@ -395,7 +395,7 @@ def configs(tier):
             out.append(([("svc", ctxs[0], p0), ("svc", ctxs[1], p1)], 0))
     # deviations on the core alphabet
     dev = 2 if tier == "thorough" else 1
-    for p0, p1 in itertools.product(core2 if tier == "thorough" else core1 + [(U1, U1), (U1, K1), (K1, U1), (U1, RA)], repeat=2):
+    for p0, p1 in itertools.product(core2 if tier == "thorough" else core1 + [(U1, U1), (U1, K1)], repeat=2):
         out.append(([("svc", "a", p0), ("svc", "a", p1)], dev))
     # decorator forms
     for k0, k1 in itertools.product(("svc", "trgU", "trgK"), repeat=2):
@@ -438,7 +438,7 @@ def deviations(nact, maxdev, ks=(0, 1, 2, 3)):
 
 def bounds(tier):
     return {"participants": "2-3 (thorough: 4 on {unique, kill_me})", "program_length": 2, "names": 2, "contexts": 2,
-            "max_deviations": 2 if tier == "thorough" else 1, "k": [0, 1, 2, 3]}
+            "max_deviations": 2 if tier == "thorough" else 1, "k": [0, 1, 2, 3] if tier == "thorough" else "0..2 (two tasks), 0..1 (three tasks)"}
 
 
 def plan(tier, seed):
@@ -453,8 +453,10 @@ def run_shard(shard):
     for ci, (parts, maxdev) in enumerate(configs(tier)):
         if ci % n != k:
             continue
+        # quick: callback gaps {0, 1} with three participants, {0, 1, 2} with two (thorough: {0, 1, 2, 3})
+        ks = (0, 1, 2, 3) if tier == "thorough" else ((0, 1) if len(parts) > 2 else (0, 1, 2))
         for sched in schedules(parts):
-            for devs in deviations(len(sched), maxdev):
+            for devs in deviations(len(sched), maxdev, ks):
                 fail, marks, m = execute(parts, legacy, sched, devs)
                 case = {"parts": [[p[0], p[1], [list(o) for o in p[2]]] for p in parts], "legacy": legacy,
                         "sched": [list(a) for a in sched], "devs": {str(a): b for a, b in devs.items()}}
